@@ -185,7 +185,7 @@ fn panic_class(msg: &str) -> &'static str {
     else if msg.contains("assertion failed") { "assert" }
     else if msg.contains("byte index") || msg.contains("char boundary") || msg.contains("slice index") || msg.contains("begin <= end") || msg.contains("when slicing") || msg.contains("out of range") { "slice" }
     else if msg.contains("ParseIntError") || msg.contains("Result::unwrap()") { "radix" }
-    else { eprintln!("OTHER PANIC: {}", msg); "other" }
+    else { "other" }
 }
 
 type Refs = Vec<(String, String, Option<String>)>; // label, destination, title
